@@ -33,6 +33,14 @@ func loadWorld(patterns []string, overlay map[string][]byte) (*World, error) {
 	os.Setenv("GOSUMDB", "off")
 	os.Setenv("GOTOOLCHAIN", "local")
 	env := os.Environ()
+	if overlay == nil {
+		// the production encoders of control/bpf_utils.go replace their stubs (see realslice.go)
+		ov, _, err := realSliceOverlay()
+		if err != nil {
+			return nil, err
+		}
+		overlay = ov
+	}
 	cfg := &packages.Config{
 		Mode:       packages.LoadAllSyntax,
 		Dir:        repoDir,
